@@ -153,6 +153,9 @@ var smpp5Operations = []struct {
 // layoutIntoHeld: the layout clause on destinations that already hold octets (C12's destination kinds): the octets APPENDED
 // by Marshal must be the same specification layout [want] that a fresh destination receives.
 func layoutIntoHeld(r *Run, t pduType, before interface{}, want []byte, k int) {
+	if stallsExhausted() {
+		return
+	}
 	kind := []string{"buffer", "wrapped", "buffer"}[k%3]
 	held := r.Rng.Bytes([]int{1, 3, 4, 16, 17, 100}[k%6])
 	r.SetReplay(replayValueDest(before, kind, held, 0))
@@ -398,14 +401,21 @@ func corrC02(r *Run) {
 	}
 	// (3b) specification frames Marshal never produces: sm_length 141..255, TLVs with a zero-length value, duplicated TLVs
 	for i := 0; i < r.N(60, 1000); i++ {
-		id := uint32(r.Rng.Pick([]int{4, 5}))
-		udhi := r.Rng.Intn(3) == 0
+		id := uint32(r.Rng.Pick([]int{4, 5, 0x21}))
+		udhi := r.Rng.Intn(2) == 0
+		if i < 6 { // always: each of the three operations the UDH indicator applies to, with the indicator set
+			id, udhi = []uint32{4, 5, 0x21}[i%3], true
+		}
 		var udh []byte
 		want := pdu.ShortMessage{DefaultMessageID: r.Rng.Byte(), DataCoding: coding.DataCoding(r.Rng.Pick([]int{0, 4, 8, 0xF5}))}
 		if udhi {
 			want.UDHeader = pdu.UserDataHeader{}
 			var ies []byte
-			for k, idn := 0, 0; k < 1+r.Rng.Intn(3); k++ {
+			nel := 1 + r.Rng.Intn(3)
+			if i < 6 {
+				nel = 2
+			}
+			for k, idn := 0, 0; k < nel; k++ {
 				idn += 1 + r.Rng.Intn(40)
 				v := r.Rng.Bytes(r.Rng.Pick([]int{0, 1, 3, 4, 30}))
 				want.UDHeader[byte(idn)] = v
@@ -422,7 +432,13 @@ func corrC02(r *Run) {
 		if udhi {
 			esm = 0x40
 		}
-		sb := (&specBuf{}).cstr("").addr(1, 1, "7").addr(1, 1, "8").i1(esm).i1(0).i1(0).cstr("").cstr("").i1(0).i1(0).
+		sb := (&specBuf{}).cstr("").addr(1, 1, "7")
+		if id == 0x21 {
+			sb.i1(1).i1(1).addr(1, 1, "8") // number_of_dests 1, dest_flag 1 (SME address)
+		} else {
+			sb.addr(1, 1, "8")
+		}
+		sb.i1(esm).i1(0).i1(0).cstr("").cstr("").i1(0).i1(0).
 			i1(byte(want.DataCoding)).i1(want.DefaultMessageID).i1(byte(len(udh) + ml)).raw(udh).raw(want.Message)
 		wantTags := pdu.Tags{}
 		var tlvTerms []string // the TLVs in transmission order, as specification-level values
@@ -454,7 +470,11 @@ func corrC02(r *Run) {
 			}
 		}
 		if coqField(reflect.ValueOf(gotMsg)) != coqField(reflect.ValueOf(want)) || coqKVs16(gotTags) != coqKVs16(wantTags) {
-			r.Fail("decode/spec-only", "a specification frame decodes to other values", in,
+			cls := "decode/spec-only"
+			if udhi && gotMsg.UDHeader == nil {
+				cls = fmt.Sprintf("decode/udhi-not-applied/%#x", id)
+			}
+			r.Fail(cls, "a specification frame decodes to other values (with the UDH indicator set the user data header must be parsed out of short_message)", in,
 				coqField(reflect.ValueOf(gotMsg))+" "+coqKVs16(gotTags), coqField(reflect.ValueOf(want))+" "+coqKVs16(wantTags))
 		}
 		if i%2 == 0 {
@@ -467,7 +487,11 @@ func corrC02(r *Run) {
 			if udhi {
 				udhTerm = "(Some " + coqKVs8(want.UDHeader) + ")"
 			}
-			xs := fmt.Sprintf("[XStr []; XInt 1; XInt 1; XStr (hx \"37\"); XInt 1; XInt 1; XStr (hx \"38\"); XInt %d; XInt 0; XInt 0; XStr []; XStr []; XInt 0; XInt 0; XInt %d; XInt %d; XShort %s %s; XTlvs %s]",
+			dst := "XInt 1; XInt 1; XStr (hx \"38\")"
+			if id == 0x21 {
+				dst = "XDests [DSme {| s_ton := 1; s_npi := 1; s_addr := (hx \"38\") |}]"
+			}
+			xs := fmt.Sprintf("[XStr []; XInt 1; XInt 1; XStr (hx \"37\"); "+dst+"; XInt %d; XInt 0; XInt 0; XStr []; XStr []; XInt 0; XInt 0; XInt %d; XInt %d; XShort %s %s; XTlvs %s]",
 				esm, byte(want.DataCoding), want.DefaultMessageID, udhTerm, coqHex(want.Message), coqList(tlvTerms))
 			r.Case("specification converse (of_x_fields) "+shortHex(frame),
 				fmt.Sprintf("match of_x_fields %s (tl (l_fields %s)) %s false, lay_params (erase %s) (map flat %s) with Some vs, Some body => "+
